@@ -682,7 +682,9 @@ func (s *v4Server) reserveLease(mac net.HardwareAddr) (l *dhcpsvc.Lease, err err
 			return nil, nil
 		}
 
-		copy(s.leases[i].HWAddr, mac)
+		// Replace the address: copy would keep the length of the previous
+		// owner's address and truncate or pad the new one.
+		s.leases[i].HWAddr = slices.Clone(mac)
 
 		return s.leases[i], nil
 	}
